@@ -246,6 +246,8 @@ class Interp:
                     return [Num(sc * Rat.atom(poly.T.app("fn", "idx", (Rat.atom(a), i)))) for i in range(n)]
         if isinstance(v, (Opaque,)):
             return [Opaque("%s[%d]" % (v.desc, i)) for i in range(n)]
+        if isinstance(v, ObjV) and getattr(v.cls, "is_namedtuple", False) and len(v.cls.fields) == n:
+            return [self.obj_attr(v, f.name, frame, node) for f in v.cls.fields]
         raise Unmodelled("cannot unpack %r into %d targets at %s" % (v, n, frame.loc(node)))
 
     def st_If(self, st, frame):
